@@ -74,6 +74,11 @@ def DictOf(**fields):
     return Shape('dict', fields=fields)
 
 
+def FlagSet(**flags):
+    """an arbitrary subset of the given named flag objects"""
+    return Shape('flagset', flags=flags)
+
+
 def Const(v):
     return Shape('const', value=v)
 
@@ -277,3 +282,9 @@ def set_keys(s):
 
 def seq_contains(t, x):
     return x in tuple(t)
+
+
+def split_op(*a, **k): pass
+
+
+Raiser = Shape('raiser')
